@@ -286,6 +286,10 @@ func (p *Parser) param(r rune) {
 	p.params = append(p.params, r)
 }
 
+// maxParam is the largest value of a CSI parameter; longer digit strings
+// saturate
+const maxParam = 1<<30 - 1
+
 // A final character has arrived, so determine the control function to be
 // executed from private marker, intermediate character(s) and final
 // character, and execute it, passing in the parameter list.
@@ -322,9 +326,13 @@ func (p *Parser) csiDispatch(r rune) {
 			param = append(param, ps)
 			ps = 0
 		default:
-			// All of our non ';' and ':' bytes are a digit.
-			ps *= 10
-			ps += int(b) - 0x30
+			// All of our non ';' and ':' bytes are a digit. Saturate
+			// instead of overflowing on an overlong parameter
+			if ps > maxParam/10-1 {
+				ps = maxParam
+			} else {
+				ps = ps*10 + int(b) - 0x30
+			}
 		}
 	}
 	param = append(param, ps)
